@@ -345,7 +345,9 @@ pub fn identifier_grid(quick: bool) -> Extra {
     }
     if quick {
         // plus the depth-3 sub-grid over a 2x2 node alphabet, so forks below a common prefix are in the quick tier too
-        let small: Vec<Node> = vec![(0, 1, 0), (0, 1, 1), (1, 2, 0), (1, 2, 1)];
+        // (-1 and 1 are in it so that a node two levels below a fork can lie a whole unit beyond the node right below
+        // the fork in either direction - seed C14-5 reads the wrong one of the two)
+        let small: Vec<Node> = vec![(0, 1, 0), (0, 1, 1), (1, 2, 0), (1, 2, 1), (-1, 1, 0), (1, 1, 1)];
         for a in small.iter() {
             for b in small.iter() {
                 for c in small.iter() {
